@@ -253,6 +253,37 @@ def fastpath_lift(run, rng):
             run.find(key, f"{key} differs from weights (x) partial_trace ({ {k: v for k, v in rp.items() if k != 'state'} })", rp)
 
 
+def process_fidelity_exact(run, rng):
+    """process_fidelity(kraus_to_liouville(Ks, order)) * d^2 = sum_K |tr K|^2 on integer Kraus sets (exact), and the
+    trace of the C17 Liouville model in Coq (theorem process_fidelity_from_kraus)"""
+    import qibo.quantum_info as qi
+    terms, meta = [], []
+    for n in (1, 2, 3):
+        d = 2 ** n
+        for rank in (1, 3):
+            Ks = [rand_op(rng, d) for _ in range(rank)]
+            want = sum(int(round(np.trace(Km).real)) ** 2 + int(round(np.trace(Km).imag)) ** 2 for Km in Ks)   # exact integers
+            for order in ("row", "column"):
+                L = qi.kraus_to_liouville([(tuple(range(n)), Km.copy()) for Km in Ks], order=order)
+                got = float(qi.process_fidelity(L)) * (d * d)
+                rp = {"n": n, "rank": rank, "order": order, "kraus": [ints(Km)[0] for Km in Ks]}
+                run.case({"process_fidelity_from_kraus": [n, rank, order]}, True)
+                if got != float(want):
+                    run.find("process_fidelity:kraus", f"process_fidelity * d^2 = {got}, sum |tr K|^2 = {want} (n={n}, order={order})", rp)
+                if n <= 2:
+                    col = "true" if order == "column" else "false"
+                    ks = "[" + ";".join(lit(ints(Km)[0]) for Km in Ks) + "]"
+                    terms.append((f"pf{len(terms)}", f"Z.eqb (fst (z_trace {d * d}%nat (z_kraus_to_liouville {col} {d}%nat {ks}))) ({int(round(want))})"))
+                    meta.append(rp)
+    out, log = run.coq_bools("C18_procfid.v", HEADER, terms, timeout=600)
+    for (lab, _), rp in zip(terms, meta):
+        if out is None:
+            run.find("coq:process_fidelity", "generated Coq file did not compile", rp, concrete=False)
+            break
+        if not out[lab]:
+            run.find("model:process_fidelity:kraus", "trace of the Coq Liouville model differs from sum |tr K|^2", rp, concrete=False)
+
+
 def kept_order_probe(run):
     """the density-matrix route relies on tuple(set(range(n)) ^ set(traced)) being ASCENDING (the model's
     `complement`); that is a CPython set-iteration detail, checked here exhaustively for n <= 10"""
@@ -862,6 +893,7 @@ def main(run):
     np.seterr(all="ignore")
     bookkeeping(run, rng)
     fastpath_lift(run, random.Random(run.seed + 2))
+    process_fidelity_exact(run, random.Random(run.seed + 3))
     kept_order_probe(run)
     classical(run, rng)
     seed_machine(run, rng)
